@@ -313,7 +313,13 @@ func (s *sim) buildPH(op Op) builtPH {
 			cands = s.knownAt(h - 1)
 		}
 		if len(cands) > 0 {
-			parentHash = cands[op.D%len(cands)].Header.Hash
+			parent := cands[op.D%len(cands)]
+			parentHash = parent.Header.Hash
+			// an honest proposer of h builds on its parent: the validator set of h is the parent's next set
+			if v, ok := s.w.lookup(parent.Header.NextValidatorSet.PubKeyHash, parent.Header.NextValidatorSet.VotePowerHash); ok {
+				set = v
+				n = len(set.Keys)
+			}
 		} else {
 			parentHash = s.w.unknownHashes[2]
 		}
@@ -706,6 +712,23 @@ func (s *sim) voteTrigger(b builtVote) string {
 	return ""
 }
 
+// fMaskFor sanitizes the configured candidate set F for the validator set of
+// height h: members are dropped (highest index first) until 3*power(F) < total.
+func (s *sim) fMaskFor(h uint64) uint32 {
+	set := s.setFor(h)
+	m := s.c.Cfg.F & fullMask(len(set.Keys))
+	for i := len(set.Keys) - 1; i >= 0 && m != 0; i-- {
+		if new(big.Int).Mul(big.NewInt(3), powerOfMask(set, m)).Cmp(set.total()) < 0 {
+			break
+		}
+		m &^= 1 << uint(i)
+	}
+	if new(big.Int).Mul(big.NewInt(3), powerOfMask(set, m)).Cmp(set.total()) >= 0 {
+		m = 0
+	}
+	return m
+}
+
 func (s *sim) execVote(op Op) {
 	if !s.alive {
 		return
@@ -716,6 +739,8 @@ func (s *sim) execVote(op Op) {
 			s.fStart = [2]uint64{s.vv.Height, uint64(s.vv.Round)}
 		}
 		op.T = append([]VT(nil), op.T...)
+		hh, _ := s.resolve(op)
+		s.fMask = s.fMaskFor(hh)
 		for i := range op.T {
 			op.T[i].S &= s.fMask
 		}
